@@ -8,13 +8,15 @@ func init() {
 	Register(&Property{
 		ID: "C23",
 		Decides: "(R23.1) in the two lookup iterators over the expel-operation records (by node, traverse) a stop without an error and without a match is controlled only by the sort key of the record (`End < height`, the key starts with the end height and the iteration is descending), never by another field; a record is matched (stored / handed to the callback) only if Start <= height <= End (and, by node, the node equals); " +
-			"(R23.2) removal by height deletes only records with End <= height and visits all records; (R23.3) writer and by-fact remover use the same key builder, whose first key component is the end height.",
+			"(R23.2) removal by height deletes only records with End <= height and visits all records; (R23.3) writer and by-fact remover use the same key builder, whose first key component is the end height.; (R23.k) every leveldb key builder carries each of its parameters in full under its own prefix constant",
 		NotDecided: "byte-order comparison of encoded heights (big-endian encoding assumed); behaviour for two operations of one node with overlapping ranges (the first match in end-descending order wins).",
 		Run:        runC23,
 	})
 }
 
 func runC23(c *Ctx) {
+	c.Rule("R23.k", "KeyTable")
+	keyBuilderRules(c)
 	rec := "isaacdatabase.ReadFrameHeaderSuffrageExpelOperation(b)"
 	h := "height.Int64()"
 	c.Rule("R23.1", "IterStop")
